@@ -146,6 +146,12 @@ func runGate(op string) (out string) {
 		var b []byte
 		vb := v
 		parts := strings.Split(f, ":")
+		if parts[0] == "V" { // the client goes on in another protocol version (no frame is sent)
+			x, _ := strconv.Atoi(parts[1])
+			v = byte(x)
+			cl.Version = primitive.ProtocolVersion(v)
+			continue
+		}
 		switch parts[0] {
 		case "X":
 			x, _ := strconv.Atoi(parts[1])
@@ -280,9 +286,31 @@ func genGate(e *emitter, r *rng.R, n int, tier string) {
 	for _, c := range comps {
 		ops = append(ops, fmt.Sprintf("M:4 O S:%s Q O", c), fmt.Sprintf("M:4 S:%s R:SCHEMA_CHANGE Q", c), fmt.Sprintf("M:4 Q S:%s Q Q", c))
 	}
+	// every accepted version with every supported compression, and a client that raises its version in mid-connection
+	accepted := []int{3, 4, 5, 65, 66}
+	for _, m := range []int{3, 4, 5, 65, 66} {
+		for _, v := range accepted {
+			if v > m {
+				continue
+			}
+			for _, c := range []string{"lz4", "snappy", "-"} {
+				ops = append(ops, fmt.Sprintf("M:%d V:%d O S:%s Q O", m, v, c))
+			}
+		}
+		for _, v := range accepted {
+			if v > m {
+				ops = append(ops, fmt.Sprintf("M:%d V:%d S:- Q V:%d Q O V:%d Q", m, m, v, m), fmt.Sprintf("M:%d V:%d S:- Q V:%d S:- O R:SCHEMA_CHANGE V:%d O Q", m, m, v, m))
+			} else {
+				ops = append(ops, fmt.Sprintf("M:%d V:%d S:- Q V:%d Q O", m, m, v))
+			}
+		}
+	}
 	for i := 0; i < n; i++ {
 		rr := r.Fork(uint64(i))
 		parts := []string{fmt.Sprintf("M:%d", maxes[rr.Intn(5)])}
+		if rr.Chance(1, 3) {
+			parts = append(parts, fmt.Sprintf("V:%d", accepted[rr.Intn(5)]))
+		}
 		started := false
 		for j := 0; j < 2+rr.Intn(5); j++ {
 			switch c := rr.Intn(10); {
@@ -298,6 +326,9 @@ func genGate(e *emitter, r *rng.R, n int, tier string) {
 			case c < 7:
 				parts = append(parts, "R:"+rr.Pick(evs))
 			case c < 9:
+				if rr.Chance(1, 6) {
+					parts = append(parts, fmt.Sprintf("V:%d", accepted[rr.Intn(5)]))
+				}
 				parts = append(parts, "Q")
 			default:
 				parts = append(parts, fmt.Sprintf("X:%d:%d", []int{2, 3, 4, 5, 65, 66, 1, 6, 67}[rr.Intn(9)], []int{1, 5, 7, 9}[rr.Intn(4)]))
